@@ -621,6 +621,33 @@ func shapeWorld(seed int64, id int, shape string, width, depth int, rootOK bool)
 	owner := cast.Ed("L0")
 	with := owner.DID.String()
 	w := &World{ID: id, Kind: shape, Cast: cast, Can: "store/add", Inv: "inv", Ctx: baseCtx(service)}
+	if shape == "logins" {
+		// `width` sibling logins: accounts (did:mailto, no key) delegate `*` to the agent, the service attests each of them;
+		// every account proof has to be matched with its session among the sibling attestations
+		agent := cast.Ed("agent")
+		inv := &TokSpec{Name: "inv", Issuer: agent, Audience: service, Exp: &far}
+		var sess []ProofRef
+		for i := 0; i < width; i++ {
+			acct := cast.Absentee(fmt.Sprintf("acct%d", i), fmt.Sprintf("did:mailto:example.com:user%d", i))
+			iss := service
+			if !rootOK && i == 0 {
+				iss = cast.Ed("strangerroot") // the session of the account that is invoked is not by the authority
+			}
+			ln := fmt.Sprintf("login%d", i)
+			w.Specs = append(w.Specs, &TokSpec{Name: ln, Issuer: acct, Audience: agent, Exp: &far,
+				Caps: []CapSpec{{Can: "*", With: acct.DID.String(), Nb: Cav{}}}})
+			w.Specs = append(w.Specs, &TokSpec{Name: fmt.Sprintf("sess%d", i), Issuer: iss, Audience: agent, Exp: &far,
+				Caps: []CapSpec{{Can: "ucan/attest", With: service.DID.String(), Nb: attestNb{w, ln}}}})
+			inv.Proofs = append(inv.Proofs, ProofRef{Tok: ln, Inline: true})
+			sess = append(sess, ProofRef{Tok: fmt.Sprintf("sess%d", i), Inline: true})
+			if i == 0 {
+				inv.Caps = []CapSpec{{Can: "store/add", With: acct.DID.String(), Nb: Cav{}}}
+			}
+		}
+		inv.Proofs = append(inv.Proofs, sess...)
+		w.Specs = append(w.Specs, inv)
+		return w
+	}
 	// layer 1 is issued by the owner (or by a stranger when the roots must fail), layer i by principal L(i-1) to L(i)
 	var prevLayer []string
 	for layer := 1; layer <= depth; layer++ {
@@ -706,6 +733,9 @@ func init() {
 				}
 				shapes = append(shapes, sh{"layered", wd, d})
 			}
+		}
+		for k := 1; k <= 6; k++ {
+			shapes = append(shapes, sh{"logins", k, 1})
 		}
 		for _, s := range shapes {
 			for _, rootOK := range []bool{true, false} {
